@@ -172,8 +172,11 @@ func C06(p *core.Program, r *core.Report) {
 			case owner == "PrimaryBlock" || (owner == "Bundle" && field == "PrimaryBlock"):
 				r.Check(fname(fn) == "pkg/routing.IdKeeper.update", key, "the primary block of a bundle is written by routing code only in IdKeeper.update (sequence number of a locally originated bundle)", p.Pos(st.Pos()), "", "routing code writes the primary block of a bundle in transit")
 			case owner == "Bundle" && field == "CanonicalBlocks":
-				okRem := fname(fn) == "pkg/routing.Core.receive" && flagGuard(core.DominatingConds(st.Block()), "BlockControlFlags", constVal(p, bp7, "RemoveBlock"), true)
-				r.Check(okRem, key, "the block list is edited by routing code only to remove an unknown block that carries the RemoveBlock flag", p.Pos(st.Pos()), "", "unexpected edit of CanonicalBlocks")
+				conds := core.DominatingConds(st.Block())
+				_, unk := callGuard(conds, bp7+".ExtensionBlockManager.IsKnown", false)
+				rc, isCall := st.Val.(*ssa.Call)
+				okRem := unk && isCall && isRemovalIdiom(rc) && flagGuard(conds, "BlockControlFlags", constVal(p, bp7, "RemoveBlock"), true)
+				r.Check(okRem, key, "the block list is edited by routing code only to remove (append(s[:i], s[i+1:]...)) a block of unknown type that carries the RemoveBlock flag", p.Pos(st.Pos()), "", "unexpected edit of CanonicalBlocks")
 			case owner == "CanonicalBlock" && field == "Value":
 				okV := fname(fn) == "pkg/routing.Core.forward" && (isTypedPtr(st.Val, "HopCountBlock") || isTypedPtr(st.Val, "PreviousNodeBlock"))
 				r.Check(okV, key, "a block's value is replaced only in forward, for the hop-count and previous-node blocks", p.Pos(st.Pos()), "", "unexpected replacement of a block value")
@@ -411,6 +414,50 @@ func C06(p *core.Program, r *core.Report) {
 	})
 	r.Check(okLT && okAge && okHop, "drop-before-send/"+fname(fwd)+"/all-tests-on-every-path", "no path reaches the sends without the hop-count lookup, the lifetime test and the age update", p.Pos(goInstr.Pos()), "", fmt.Sprintf("hop lookup %v, lifetime %v, age %v", okHop, okLT, okAge))
 
+	// unsupported blocks flagged for removal are removed on the forwarding path
+	// itself: a retry re-loads the bundle as it was stored at reception and does
+	// not pass Core.receive again.
+	rmFlag := constVal(p, bp7, "RemoveBlock")
+	removalIn := func(fn *ssa.Function) []*ssa.Call {
+		var out []*ssa.Call
+		core.EachInstr(fn, func(in ssa.Instruction) {
+			c, ok := in.(*ssa.Call)
+			if !ok || !isRemovalIdiom(c) || !pathEndsWith(c.Common().Args[0].(*ssa.Slice).X, "CanonicalBlocks") {
+				return
+			}
+			conds := core.DominatingConds(c.Block())
+			if _, unk := callGuard(conds, bp7+".ExtensionBlockManager.IsKnown", false); unk && flagGuard(conds, "BlockControlFlags", rmFlag, true) {
+				out = append(out, c)
+			}
+		})
+		return out
+	}
+	okRm, rmWhere := false, ""
+	for _, c := range removalIn(fwd) {
+		if l := core.InnermostLoop(core.Loops(fwd), c.Block()); l != nil {
+			hdr := l.Header
+			if core.MustPassBefore(goInstr, func(i ssa.Instruction) bool { return i.Block() == hdr }) {
+				okRm, rmWhere = true, "loop in forward at "+p.Pos(c.Pos())
+			}
+		}
+	}
+	if !okRm {
+		core.EachInstr(fwd, func(in ssa.Instruction) {
+			c, ok := in.(ssa.CallInstruction)
+			if !ok {
+				return
+			}
+			cal := core.Callee(c)
+			if cal == nil || !core.IsRepo(cal) || len(removalIn(cal)) == 0 {
+				return
+			}
+			if core.MustPassBefore(goInstr, func(i ssa.Instruction) bool { return i == in }) {
+				okRm, rmWhere = true, "call to "+fname(cal)
+			}
+		})
+	}
+	r.Check(okRm, "drop-before-send/"+fname(fwd)+"/unsupported-blocks-removed-on-every-path", "every path of Core.forward to the sends passes the removal of unsupported blocks flagged 'remove' (a retry loads the stored bundle, which still has them, and does not pass Core.receive)", p.Pos(goInstr.Pos()), rmWhere, "no removal of unknown blocks flagged RemoveBlock on the path to the sends: on the n-th retry the block leaves the node")
+
 	// increment / decrement pairing
 	hopType := constVal(p, bp7, "ExtBlockTypeHopCountBlock")
 	isHopLookup := func(v ssa.Value) bool {
@@ -490,6 +537,34 @@ func C06(p *core.Program, r *core.Report) {
 	checkNarrowCounter(p, r, fwd, incCalls)
 
 	checkRemovalLoops(p, r)
+
+	// the reception time is write-once: the age a bundle leaves with is the age
+	// stored with the (immutable) bundle file plus now-Timestamp; Timestamp is
+	// persisted by Sync, the grown age block is not.
+	nTS := 0
+	for _, fn := range p.RepoFuncs() {
+		core.EachInstr(fn, func(in ssa.Instruction) {
+			st, ok := in.(*ssa.Store)
+			if !ok || !core.IsField(st.Addr, routingPkg, "BundleDescriptor", "Timestamp") {
+				return
+			}
+			nTS++
+			base, _, _ := core.FieldRef(st.Addr)
+			a, isLocal := base.(*ssa.Alloc)
+			fresh := isLocal && a.Parent() == fn
+			if fresh {
+				// the local must be a descriptor under construction, not a copy of an existing one
+				for _, ref := range *a.Referrers() {
+					if s2, isSt := ref.(*ssa.Store); isSt && s2.Addr == ssa.Value(a) {
+						fresh = false
+					}
+				}
+			}
+			r.Check(fresh, fmt.Sprintf("reception-time/who-may-write/%s#%d", fname(fn), nTS), "BundleDescriptor.Timestamp (the reception time the bundle age is computed from) is written only while a descriptor is constructed; afterwards it is constant, because the stored bundle keeps the age it arrived with and every transmission adds now-Timestamp to that", p.Pos(st.Pos()), "", "the reception time of an existing descriptor is changed: it is persisted by Sync while the grown age is not, so the time before this write is lost from the age of every later retry")
+		})
+	}
+	r.Count("stores to BundleDescriptor.Timestamp", nTS)
+	r.Min("stores to BundleDescriptor.Timestamp", 2)
 
 	// IsLifetimeExceeded covers both clocks
 	ile := p.Func(bp7, "Bundle", "IsLifetimeExceeded")
